@@ -137,6 +137,16 @@ func (s *session) exec(args []string) string {
 	case "new":
 		s.reset()
 		return "ok"
+	case "vrange": // vrange <v1,v2,...|-> <version>: VersionRange built by Add, then FindPrevious (C20: Model/V2Log.lean)
+		var r iavl.VersionRange
+		if args[1] != "-" {
+			for _, tok := range strings.Split(args[1], ",") {
+				if err := r.Add(atoi(tok)); err != nil {
+					return "err-add"
+				}
+			}
+		}
+		return fmt.Sprint(r.FindPrevious(atoi(args[2])))
 	case "cfg":
 		for _, a := range args[1:] {
 			kv := strings.SplitN(a, "=", 2)
